@@ -247,6 +247,42 @@ Theorem C22_next_step_continues_from_state S ss thandlers flow time s u l s2 sto
 Proof. intros H1. exact (next_step_continues_from_state S ss thandlers flow time s u l s2 stop H1 time' u' l' s3 stop'). Qed.
 Print Assumptions C22_next_step_continues_from_state.
 
+(** TERMINATION.  The "should terminate" outcome of one handleEvents dispatch is the OR over ALL handlers invoked (each
+    applied to the state the previous one produced): after a triggered / scheduled event the simulation is over iff some
+    invoked handler asked for it -- in particular a terminating handler registered BEFORE a non-terminating one that fires
+    in the same window still ends the run ([any_term_true]). *)
+Theorem C22_triggered_dispatch_terminates_iff S ss thandlers flow time s u l s2 stop :
+  ts_body S [ss] thandlers flow time s u = (l, s2, stop) -> a_status (u_ans u) = ReachedEventTrigger ->
+  ts_over s2 = any_term S th_act (a_tadv (u_ans u)) (called th_id (a_ids (u_ans u)) thandlers)
+                        (flow (ts_pay s) (ts_tadv s) (a_tadv (u_ans u))).
+Proof. exact (triggered_dispatch_terminates_iff S ss thandlers flow time s u l s2 stop). Qed.
+Print Assumptions C22_triggered_dispatch_terminates_iff.
+
+Theorem C22_scheduled_dispatch_terminates_iff S ss thandlers flow time s u l s2 stop :
+  ts_body S [ss] thandlers flow time s u = (l, s2, stop) -> a_status (u_ans u) = ReachedScheduledEvent ->
+  ts_over s2 = any_term S h_act (a_tadv (u_ans u)) (called h_id (u_evids u) (ss_handlers ss))
+                        (flow (ts_pay s) (ts_tadv s) (a_tadv (u_ans u))).
+Proof. exact (scheduled_dispatch_terminates_iff S ss thandlers flow time s u l s2 stop). Qed.
+Print Assumptions C22_scheduled_dispatch_terminates_iff.
+
+Theorem C22_any_term_true S (H:Type) (act:H -> S -> Q -> S * bool * bool) t hs st :
+  (exists pre h post, hs = pre ++ h :: post /\ snd (fst (act h (apply_all S act t pre st) t)) = true) ->
+  any_term S act t hs st = true.
+Proof. exact (any_term_true S act t hs st). Qed.
+Print Assumptions C22_any_term_true.
+
+(** when the dispatch of one integrator answer leaves the simulation over, that TimeStepper::stepTo consumes no further
+    integrator answer and makes no further handler call, and every later stepTo returns EndOfSimulation without doing
+    anything (no step, no handler call) *)
+Theorem C22_termination_requested_ends_run S ss thandlers flow cf reportAll time s a orc log uses l s2 stop :
+  ts_over s = false ->
+  ts_body S [ss] thandlers flow time s (mk_use S cf [ss] time s a) = (l, s2, stop) -> ts_over s2 = true ->
+  ts_loop S cf [ss] thandlers flow reportAll time s (a :: orc) log uses =
+    TSRet S (if stop || reportAll then a_status a else EndOfSimulation) s2 orc (log ++ l) (uses ++ [mk_use S cf [ss] time s a]) /\
+  forall ra time' orc', ts_stepTo S cf [ss] thandlers flow ra time' s2 orc' = TSRet S EndOfSimulation s2 orc' [] [].
+Proof. exact (termination_requested_ends_run S ss thandlers flow cf reportAll time s a orc log uses l s2 stop). Qed.
+Print Assumptions C22_termination_requested_ends_run.
+
 (** non-vacuity of the time-stepper theorems: a concrete run with 14 integrator answers that all meet [use_ok] *)
 Theorem C22_ex_ts_run :
   ex_summary (ts_stepTo Q false [ex_ss] ex_th ex_flow false 1 (ts_init Q 0 0) ex_orc) =
